@@ -552,3 +552,39 @@ pub fn lzma2_parse_lzma_fields_c0() {
 pub fn lzma2_parse_lzma_fields_c2() {
     parse_lzma_fields::<2>()
 }
+
+
+//@ harness props=C02,C17,C07 tier=quick unwind=8 unwindset=process_mode:4,default_read_exact:4 mem_gb=10 timeout=900 native=no
+//@ bound: parse_lzma directly, class 1, SYMBOLIC 16-bit compressed-size field (payload really needs 6 bytes: preamble + one 1-byte symbol), declared uncompressed size 1
+#[cfg_attr(kani, kani::proof)]
+#[cfg_attr(kani, kani::stub(std::fmt::format, crate::verif_common::stub_format))]
+#[cfg_attr(kani, kani::stub(std::io::Error::is_interrupted, crate::verif_common::stub_not_interrupted))]
+#[cfg_attr(kani, kani::stub(crate::decode::lzma::DecoderState::process_next_inner, crate::decode::lzma::verif_h::abs_symbol))]
+#[cfg_attr(kani, kani::stub(crate::decode::lzma::DecoderState::reset_state, crate::decode::lzma2::verif_h::observing_reset_state))]
+pub fn lzma2_parse_lzma_packed_field() {
+    let mut t = Tape::<32>::new();
+    let packed = t.u16();
+    let body: [u8; 8] = t.bytes::<8>();
+    let status = 0x80u8 | (1 << 5);
+    let f = [0u8, 0, (packed >> 8) as u8, packed as u8, body[0], body[1], body[2], body[3], body[4], body[5], body[6], body[7]];
+    let mut dec = mk_decoder([script(1, K_LIT), script(20, K_LIT), script(20, K_LIT), script(20, K_LIT)]);
+    let mut rd = ArrReader::<12>::new(f, 12);
+    let mut sink = RecSink::<4>::new();
+    let mut accum = crate::decode::lzbuffer::verif_h::accum_from_stream_with_capacity(&mut sink, usize::MAX);
+    let r = dec.parse_lzma(&mut accum, &mut rd, status);
+    let ok = r.is_ok();
+    forget(r);
+    let declared = packed as u64 + 1;
+    // the payload needs 6 bytes; a declared size below that cannot be decoded
+    if declared < 6 {
+        vassert!(!ok, "lzma2: a chunk whose payload needs more input than its declared compressed size (be16 + 1) is rejected");
+    }
+    if declared == 6 {
+        vassert!(ok, "lzma2: exact compressed size accepted");
+        vassert!(rd.pos == 4 + 6, "lzma2: chunk consumed exactly header + declared payload");
+    }
+    vcover!(packed == 0xFFFF, "packed_field_ffff");
+    vcover!(ok, "packed_ok");
+    forget(accum);
+    forget(dec);
+}
